@@ -43,6 +43,8 @@ enum K {
     Big,
     /// 136-byte plain value
     Wide,
+    /// a type whose *name* is an `Option<..>` (generators may special-case names)
+    OptU32,
 }
 
 impl K {
@@ -65,6 +67,7 @@ impl K {
             K::ZTok => "crate::support::ZTok",
             K::Big => "crate::support::Big",
             K::Wide => "crate::support::Wide",
+            K::OptU32 => "Option<u32>",
         }
     }
     fn size_align(self) -> (usize, usize) {
@@ -84,6 +87,7 @@ impl K {
             K::Tok4 => (8, 4),
             K::Big => (520, 8),
             K::Wide => (136, 8),
+            K::OptU32 => (8, 4),
         }
     }
     fn copy(self) -> bool {
@@ -144,7 +148,8 @@ fn corpus() -> Vec<ModuleDef> {
                 Remove("a"), Remove("b"), Add("e", BoxU32, false), Add("f", U16, true), Close(S::Simple),
             ],
         },
-        // drop-counted tokens, three variants, variant made only of removals
+        // drop-counted tokens, four variants, a variant made only of removals, then an empty last variant
+        // (everything that is left, a droppable value included, removed by the last conversion)
         ModuleDef {
             name: "m_tokens",
             clone: true,
@@ -154,6 +159,7 @@ fn corpus() -> Vec<ModuleDef> {
                 Add("t", Tok, false), Add("x", U32, false), Add("u", Tok4, false), Close(S::Simple),
                 Remove("t"), Add("v", Tok, false), Add("y", U16, true), Close(S::Basic),
                 Remove("x"), Remove("u"), Close(S::Simple),
+                Remove("v"), Remove("y"), Close(S::Simple),
             ],
         },
         // odd sizes, zero-size fields (may-be-uninitialised ones too, with the clone fragment), an
@@ -214,7 +220,7 @@ fn corpus() -> Vec<ModuleDef> {
             serde: true,
             tier: "quick",
             ops: vec![
-                Add("a", U32, false), Add("t", Tok, false), Add("b", U8, true), Close(S::Simple),
+                Add("a", U32, false), Add("t", Tok, false), Add("b", U8, true), Add("o", OptU32, false), Close(S::Simple),
                 Remove("a"), Add("c", U64, false), Add("d", U16, true), Close(S::Simple),
                 Remove("t"), Remove("b"), Close(S::Simple),
             ],
@@ -254,6 +260,18 @@ fn corpus() -> Vec<ModuleDef> {
             ops: vec![
                 Add("t", Tok, false), Add("big", Big, false), Add("v", Tok, false), Add("n", U16, true), Close(S::Simple),
                 Remove("t"), Add("c", U32, false), Close(S::Simple),
+            ],
+        },
+        // a variant with ten fields (three of them droppable), then one of seven; clone fragment
+        ModuleDef {
+            name: "m_many",
+            clone: true,
+            serde: false,
+            tier: "thorough",
+            ops: vec![
+                Add("f0", U8, true), Add("f1", Tok, false), Add("f2", U16, true), Add("f3", U32, false), Add("f4", Tok4, false),
+                Add("f5", U64, true), Add("f6", U8, false), Add("f7", ZTok, false), Add("f8", U16, false), Add("f9", U32, true), Close(S::Simple),
+                Remove("f0"), Remove("f5"), Remove("f9"), Close(S::Simple),
             ],
         },
         // four variants, strategy mixture, u128, gaps refilled
@@ -440,7 +458,14 @@ fn has(fields: &[Field], id: usize) -> bool {
 fn harnesses(def: &ModuleDef, vars: &[Vec<Field>], max_size: usize, max_align: usize) -> String {
     let mut o = String::new();
     let unwind = 64;
+    // GK_SKIP: harnesses left out of a second run (set by lib/kani_units.py when the emitted module no longer
+    // offers the interface one harness relies on: that harness is reported, the others still run)
+    let skip: Vec<String> = env::var("GK_SKIP").unwrap_or_default().split(',').map(|s| s.to_owned()).collect();
+    let module = def.name;
     let hdr = |o: &mut String, name: &str| {
+        if skip.contains(&format!("{}::h::{}", module, name)) {
+            writeln!(o, "    #[cfg(any())]").unwrap();
+        }
         writeln!(o, "    #[kani::proof]\n    #[kani::unwind({unwind})]\n    pub fn {name}() {{").unwrap();
     };
     for (k, fields) in vars.iter().enumerate() {
@@ -818,6 +843,7 @@ fn main() {
     println!("cargo:rerun-if-changed=build.rs");
     println!("cargo:rerun-if-changed=/repo/truc/src");
     println!("cargo:rerun-if-env-changed=GK_TIER");
+    println!("cargo:rerun-if-env-changed=GK_SKIP");
     let tier = env::var("GK_TIER").unwrap_or_else(|_| "quick".into());
     let out = PathBuf::from(env::var("OUT_DIR").unwrap());
     let dump = env::var("GK_DUMP_DIR").ok().map(PathBuf::from);
